@@ -22,6 +22,7 @@ import dagtasks
 import fakeproc
 
 ALL = (1 << 20) - 1
+EXT_VALUE = 424242   # what the external writer stores
 CPU = os.cpu_count() or 1
 
 
@@ -140,6 +141,23 @@ def gen_case(rng, *, max_tids=8, backend=None):
                     v += 1  # a valid entry holding another value: a load must return what is stored
                 case['pre'][t] = v
     return case
+
+
+def gen_ext_case(rng, **kw):
+    """a case in which, while task x runs, ANOTHER writer (as a second Lab on the same storage would) caches the
+    result of a task w that depends on x and is therefore submitted later; monitor-only (the models assume no
+    other writer during a run)"""
+    for _ in range(50):
+        c = gen_case(rng, **kw)
+        c.pop('second', None)
+        n = len(c['ty'])
+        pairs = [(x, w) for w in range(n) for x in set(c['kids'][w])
+                 if c['ca'][c['ty'][w]] and not (c['fl'][x] & 35) and w not in c['pre']]
+        if pairs and not c['bust']:
+            x, w = rng.choice(pairs)
+            c['ext'] = {x: w}
+            return c
+    return None
 
 
 def ref_values(case, ignore_store=False):
@@ -369,6 +387,16 @@ def run_real(case, workdir):
             else:
                 lab = labtech.Lab(storage=storage_dir, runner_backend=backend, max_workers=case['mw'],
                                   continue_on_failure=bool(ph.get('cof', case['cof'])), context={'c': ph['ctx']})
+            if case.get('ext'):
+                ext_storage = lab._storage
+
+                def ext_hook(k, ext=case['ext'], first=first, storage=ext_storage):
+                    w = ext.get(k, ext.get(str(k)))
+                    o = first.get(w) if w is not None else None
+                    if o is not None:
+                        o._lt.cache.save(storage, o, TaskResult(value=EXT_VALUE, meta=ResultMeta(
+                            start=datetime(2021, 1, 1), duration=timedelta(seconds=1))))
+                dagtasks.EXT_HOOK = ext_hook
             if pi == 0:
                 # pre-populate the cache
                 for t, v in case['pre'].items():
@@ -480,3 +508,4 @@ def run_real(case, workdir):
             fakeproc.uninstall()
         L.TaskState = RecordingTaskState.__mro__[1]
         dagtasks.EXEC_LOG = None
+        dagtasks.EXT_HOOK = None
